@@ -122,6 +122,9 @@ type Replay struct {
 
 // Violate records a confirmed violation, writing its replay file.
 func (r *Run) Violate(kind, key, what string, c map[string]any) {
+	if os.Getenv("VERIF_WARMUP") != "" {
+		return
+	}
 	rp := Replay{Property: r.Property, Kind: kind, Key: key, What: what, Case: c}
 	h := sha256.Sum256([]byte(kind + "\x00" + key))
 	path := filepath.Join(Root, "replays", fmt.Sprintf("%s-%s.json", r.Property, hex.EncodeToString(h[:6])))
@@ -167,6 +170,11 @@ func LoadFindings() []Finding {
 // Finish writes the evidence file, prints KNOWN-FINDING / VIOLATION lines and returns the exit code.
 // ruleMatch decides named attribution rules ("rule:<name>") for a violation; may be nil.
 func (r *Run) Finish(ruleMatch func(rule string, v Violation) bool) int {
+	if os.Getenv("VERIF_WARMUP") != "" {
+		// setup runs every quick check once to warm the build caches; nothing is recorded or reported
+		fmt.Printf("%s warm-up run done in %.1fs\n", r.Property, time.Since(r.start).Seconds())
+		return 0
+	}
 	findings := LoadFindings()
 	var unlisted []Violation
 	matched := map[string]Finding{}
